@@ -112,7 +112,7 @@ class ModuleInfo:
           if not isinstance(seq,list): continue
           for i,x in enumerate(seq):
             if isinstance(x,ast.stmt) and norm(x).startswith(start):
-              j=next((k for k in range(i+1,len(seq)) if norm(seq[k]).startswith(end)),None)
+              j=len(seq) if end is None else next((k for k in range(i+1,len(seq)) if norm(seq[k]).startswith(end)),None)      # end None: to the end of the enclosing statement list
               if j is None: continue
               f=ast.FunctionDef(name=name,args=ast.arguments(posonlyargs=[],args=[],kwonlyargs=[],kw_defaults=[],defaults=[]),body=seq[i:j],decorator_list=[],returns=None,type_comment=None,type_params=[])
               ast.copy_location(f,seq[i]); f.end_lineno=seq[j-1].end_lineno; ast.fix_missing_locations(f)
